@@ -5,15 +5,16 @@
      expression          precedence! climbing over unary_expression (levels from the regenerated table)
      unary_expression    unary_operator()? _ primary_expression()
      primary_expression  constant / function_expression / identifier _ !('(' / '[' / '.') / variable / '(' _ expression _ ')'
+     variable            name (_ '.' _ name / _ '[' _ expression ++ (_ ',' _) _ ']')*        (symbolic_variable)
      constant            here: one constant token, or '+' / '-' immediately followed by a Digits token
      function_expression name _ '(' _ param_assignment ** (_ ',' _) _ ')'
      param_assignment    NOT? _ name _ '=>' _ variable  /  (name _ ':=')? _ expression
      statement_list      statements_or_empty()+   with   _ ';' _  /  (statement ** (_ ';' _)) _ ';'
      statement           assignment / IF / FOR / WHILE / REPEAT / EXIT / name(...) / RETURN
 
-   Scope: tokens are classified by [cl]; class CSel ('.', '[', ']', '..'), a '#' that does not follow BOOL, and COther (everything the model
+   Scope: tokens are classified by [cl]; class CSel ('..'), a '#' that does not follow BOOL, and COther (everything the model
    does not read: CASE, typed and time literals, reals, direct addresses ...) put a text outside the model, which the
-   entry point reports as a distinct outcome.  Variables are therefore plain names here.
+   entry point reports as a distinct outcome.
    Recursion is open and tied with fuel; running out of fuel is a distinct outcome.  Executable; no proofs here. *)
 From Coq Require Import List NArith Bool Arith.
 From Verif Require Import Base.Res Base.Text Model.ExprParser.
@@ -25,6 +26,7 @@ Inductive ckind := CkInt | CkTrue | CkFalse | CkStr | CkWStr.
 Inductive tcl :=
   | CTriv | CId | CConst (k : ckind)
   | CLP | CRP | CComma | CSemi | CAssign | CArrow
+  | CDot | CLB | CRB           (* '.', '[', ']' of structured and array variables *)
   | COp (o : binop)            (* infix only; '+' is COp BAdd *)
   | CMinus | CNot
   | CKw (k : kw)
@@ -44,25 +46,32 @@ Inductive sleaf :=
   | LfInt (neg : bool) (value : N)          (* IntegerLiteral: SignedInteger { value, is_neg } *)
   | LfBool (b : bool)
   | LfStr (chars : text)                    (* CharacterStringLiteral: the characters between the quotes *)
-  | LfName (n : text)                       (* ExprKind::LateBound *)
-  | LfVar (n : text).                       (* ExprKind::Variable(Named) *)
+  | LfName (n : text).                      (* ExprKind::LateBound *)
+
+(* the selectors after a variable's name: .field and [e1, e2, ..] *)
+Inductive sel (E : Type) :=
+  | SField (f : text)
+  | SIndex (es : list E).
+Arguments SField {E} f.
+Arguments SIndex {E} es.
 
 Inductive param (E : Type) :=
   | PPos (e : E)
   | PNamed (n : text) (e : E)
-  | POut (neg : bool) (n v : text).
+  | POut (neg : bool) (n v : text) (vs : list (sel E)).
 Arguments PPos {E} e.
 Arguments PNamed {E} n e.
-Arguments POut {E} neg n v.
+Arguments POut {E} neg n v vs.
 
 Inductive sexpr :=
   | XAtom (l : sleaf)
   | XBin (o : binop) (l r : sexpr)
   | XUn (o : unop) (e : sexpr)
-  | XCall (f : text) (ps : list (param sexpr)).
+  | XCall (f : text) (ps : list (param sexpr))
+  | XVar (n : text) (ss : list (sel sexpr)).     (* ExprKind::Variable: Named, then Structured / Array for each selector *)
 
 Inductive stmt :=
-  | TAssign (v : text) (e : sexpr)
+  | TAssign (v : text) (vs : list (sel sexpr)) (e : sexpr)
   | TCall (f : text) (ps : list (param sexpr))
   | TIf (c : sexpr) (body : list stmt) (elifs : list (sexpr * list stmt)) (els : list stmt)
   | TFor (v : text) (e1 e2 : sexpr) (step : option sexpr) (body : list stmt)
@@ -103,6 +112,7 @@ Section Parser.
   Definition is_lp c := match c with CLP => true | _ => false end.
   Definition is_rp c := match c with CRP => true | _ => false end.
   Definition is_comma c := match c with CComma => true | _ => false end.
+  Definition is_rb c := match c with CRB => true | _ => false end.
   Definition is_semi c := match c with CSemi => true | _ => false end.
   Definition is_assign c := match c with CAssign => true | _ => false end.
   Definition is_arrow c := match c with CArrow => true | _ => false end.
@@ -112,9 +122,72 @@ Section Parser.
   Definition ident (ts : list tk) : option (text * list tk) :=
     match ts with t :: r => match cl t with CId => Some (txt t, r) | _ => None end | [] => None end.
 
+  (* ---- variables: [pe] is expression() ---- *)
+  (* the tail of  expression ++ (_ ',' _)  after one subscript *)
+  Fixpoint subs_more (pe : nat -> list tk -> R sexpr) (f : nat) (acc : list sexpr) (ts : list tk) : R (list sexpr) :=
+    match f with
+    | O => OutOfFuel
+    | S f' =>
+        match next_is is_comma ts with
+        | Some r => match pe O (skip r) with
+                    | Ok (e, r') => subs_more pe f' (acc ++ [e]) r'
+                    | Fail => Ok (acc, ts)
+                    | Panic => Panic | OutOfFuel => OutOfFuel
+                    end
+        | None => Ok (acc, ts)
+        end
+    end.
+
+  (* subscript_list after '[':  _ expression ++ (_ ',' _) _ ']' *)
+  Definition subs (pe : nat -> list tk -> R sexpr) (f : nat) (r : list tk) : R (list sexpr) :=
+    match pe O (skip r) with
+    | Ok (e, r1) =>
+        match subs_more pe f [e] r1 with
+        | Ok (es, r2) => match next_is is_rb r2 with
+                         | Some r3 => Ok (es, r3)
+                         | None => Fail
+                         end
+        | Fail => Fail | Panic => Panic | OutOfFuel => OutOfFuel
+        end
+    | Fail => Fail | Panic => Panic | OutOfFuel => OutOfFuel
+    end.
+
+  (* ( _ '.' _ name / _ subscript_list )*  : a selector that does not complete gives everything back *)
+  Fixpoint sels_loop (pe : nat -> list tk -> R sexpr) (f : nat) (acc : list (sel sexpr)) (ts : list tk) : R (list (sel sexpr)) :=
+    match f with
+    | O => OutOfFuel
+    | S f' =>
+        match skip ts with
+        | t :: r =>
+            match cl t with
+            | CDot => match ident (skip r) with
+                      | Some (n, r') => sels_loop pe f' (acc ++ [SField n]) r'
+                      | None => Ok (acc, ts)
+                      end
+            | CLB => match subs pe f' r with
+                     | Ok (es, r') => sels_loop pe f' (acc ++ [SIndex es]) r'
+                     | Fail => Ok (acc, ts)
+                     | Panic => Panic | OutOfFuel => OutOfFuel
+                     end
+            | _ => Ok (acc, ts)
+            end
+        | [] => Ok (acc, ts)
+        end
+    end.
+
+  (* symbolic_variable(); ts starts with the name *)
+  Definition pvariable (pe : nat -> list tk -> R sexpr) (f : nat) (ts : list tk) : R (text * list (sel sexpr)) :=
+    match ident ts with
+    | Some (n, r) => match sels_loop pe f [] r with
+                     | Ok (ss, r') => Ok ((n, ss), r')
+                     | Fail => Fail | Panic => Panic | OutOfFuel => OutOfFuel
+                     end
+    | None => Fail
+    end.
+
   (* ---- parameters: [pe] is expression() ---- *)
   (* NOT? _ name _ '=>' _ variable *)
-  Definition param_out (ts : list tk) : option (param sexpr * list tk) :=
+  Definition param_out (pe : nat -> list tk -> R sexpr) (f : nat) (ts : list tk) : R (param sexpr) :=
     let '(neg, ts1) := match ts with
                        | t :: r => match cl t with CNot => (true, r) | _ => (false, ts) end
                        | [] => (false, ts)
@@ -122,13 +195,13 @@ Section Parser.
     match ident (skip ts1) with
     | Some (n, r) =>
         match next_is is_arrow r with
-        | Some r2 => match ident (skip r2) with
-                     | Some (v, r3) => Some (POut neg n v, r3)
-                     | None => None
+        | Some r2 => match pvariable pe f (skip r2) with
+                     | Ok ((v, vs), r3) => Ok (POut neg n v vs, r3)
+                     | Fail => Fail | Panic => Panic | OutOfFuel => OutOfFuel
                      end
-        | None => None
+        | None => Fail
         end
-    | None => None
+    | None => Fail
     end.
 
   (* (name _ ':=')? _ expression *)
@@ -151,10 +224,11 @@ Section Parser.
               end
     end.
 
-  Definition param1 (pe : nat -> list tk -> R sexpr) (ts : list tk) : R (param sexpr) :=
-    match param_out ts with
-    | Some x => Ok x
-    | None => param_in pe ts
+  Definition param1 (pe : nat -> list tk -> R sexpr) (f : nat) (ts : list tk) : R (param sexpr) :=
+    match param_out pe f ts with
+    | Ok x => Ok x
+    | Fail => param_in pe ts
+    | Panic => Panic | OutOfFuel => OutOfFuel
     end.
 
   (* the tail of  x ** (_ ',' _)  after one x *)
@@ -164,7 +238,7 @@ Section Parser.
     | O => OutOfFuel
     | S f' =>
         match next_is is_comma ts with
-        | Some r => match param1 pe (skip r) with
+        | Some r => match param1 pe f' (skip r) with
                     | Ok (p, r') => params_more pe f' (acc ++ [p]) r'
                     | Fail => Ok (acc, ts)
                     | Panic => Panic | OutOfFuel => OutOfFuel
@@ -174,7 +248,7 @@ Section Parser.
     end.
 
   Definition params (pe : nat -> list tk -> R sexpr) (f : nat) (ts : list tk) : R (list (param sexpr)) :=
-    match param1 pe ts with
+    match param1 pe f ts with
     | Ok (p, r) => params_more pe f [p] r
     | Fail => Ok ([], ts)
     | Panic => Panic | OutOfFuel => OutOfFuel
@@ -227,7 +301,11 @@ Section Parser.
                 (* identifier _ !( '(' / '[' / '.' ), else variable() *)
                 match skip r with
                 | n :: _ => match cl n with
-                            | CLP | CSel => Ok (XAtom (LfVar (txt t)), r)
+                            | CLP | CDot | CLB =>
+                                match sels_loop pe f [] r with
+                                | Ok (ss, r') => Ok (XVar (txt t) ss, r')
+                                | Fail => Fail | Panic => Panic | OutOfFuel => OutOfFuel
+                                end
                             | _ => Ok (XAtom (LfName (txt t)), skip r)
                             end
                 | [] => Ok (XAtom (LfName (txt t)), skip r)
@@ -295,17 +373,17 @@ Section Parser.
   Definition pe0 (pe : nat -> list tk -> R sexpr) (ts : list tk) : R sexpr := pe O (skip ts).
 
   (* variable() _ ':=' _ expression(); ts starts with the name *)
-  Definition assign (pe : nat -> list tk -> R sexpr) (ts : list tk) : R stmt :=
-    match ident ts with
-    | Some (v, r) =>
+  Definition assign (pe : nat -> list tk -> R sexpr) (f : nat) (ts : list tk) : R stmt :=
+    match pvariable pe f ts with
+    | Ok ((v, vs), r) =>
         match next_is is_assign r with
         | Some r1 => match pe0 pe r1 with
-                     | Ok (e, r2) => Ok (TAssign v e, r2)
+                     | Ok (e, r2) => Ok (TAssign v vs e, r2)
                      | Fail => Fail | Panic => Panic | OutOfFuel => OutOfFuel
                      end
         | None => Fail
         end
-    | None => Fail
+    | Fail => Fail | Panic => Panic | OutOfFuel => OutOfFuel
     end.
 
   Definition fbcall (pe : nat -> list tk -> R sexpr) (f : nat) (ts : list tk) : R stmt :=
@@ -492,7 +570,7 @@ Section Parser.
 
   (* statement(): assignment / selection / iteration / subprogram control, in this order *)
   Definition stmt1 (pe : nat -> list tk -> R sexpr) (pl : list tk -> R (list stmt)) (f : nat) (ts : list tk) : R stmt :=
-    match assign pe ts with
+    match assign pe f ts with
     | Fail =>
         match ts with
         | t :: r =>
